@@ -34,6 +34,7 @@ HIST = [
     [3, U, 7],
     [3, T, 6],
     [7, TV],
+    [6, T, [10, 11], 0],        # (a third way to drive a transaction: fresh cursors, SQL ROLLBACK)
     [6, T, [8, 9], 0],          # left open when the process ends
 ]
 MODEL_HIST = [[0, S("DB1"), S("S1")] if o[0] == 0 else o for o in HIST if o[0] not in (7, 8, 9)]
@@ -175,7 +176,7 @@ def main():
             must = [v for j, vs in ((2, [1]), (5, [2, 3]), (10, [6])) if j in done for v in vs]
             if any(v not in (trows or []) for v in must):
                 report("lost", f"{r['mode']}: operations {sorted(done)} had completed but table T holds {trows}: committed rows {must} lost", rep)
-            if trows and (set(trows) & {4, 5, 8, 9}):
+            if trows and (set(trows) & {4, 5, 8, 9, 10, 11}):
                 report("uncommitted", f"{r['mode']}: rows of a rolled-back / never committed transaction are on disk: {trows}", rep)
             if trows and len(set(trows) & {2, 3}) == 1:
                 report("txatomic", f"{r['mode']}: half of a committed transaction is on disk: {trows}", rep)
